@@ -1,15 +1,6 @@
-(* C11: the integrand assembled by Norm / SemiNorm (Model/NormM.v) against the classical
-   Sobolev integrand, in every differential field.
-
-   [norm_partial]        L2 and H1 (scalar and vector, d = 1,2,3), H2 in 1-D, norms and semi-norms:
-                         whenever the assembly returns a value it IS the classical integrand
-   [norm_h2_first_row]   what the H2 assembly really is in 2-D / 3-D: |e|^2 + |grad e|^2 + the FIRST
-                         ROW of the Hessian only (Dot_2d / Dot_3d read a matrix with flat indices)
-   [norm_h2_deficit]     classical - assembled = the squares of the other Hessian rows; hence
-   [norm_h2_wrong]       the assembled H2 integrand differs from the classical one as soon as that
-                         deficit does not vanish, and [h2_refuted] gives the witness e = u (free jet)
-   [sobolev_ref_sound]   the reference used by the case files (Core/Classical.v) denotes the classical sum
-   plus the error behaviour in 1-D and for vectors of the wrong length. *)
+(* C11, VARIANT FOR THE REPAIRED LIBRARY (see fixed/NormM.v): the integrand assembled by Norm / SemiNorm
+   is the classical Sobolev integrand for EVERY kind (L2, H1, H2), scalar and vector (vector H2 is refused),
+   d = 1, 2, 3, norms and semi-norms, in every differential field: [norm_full]. *)
 From Coq Require Import String ZArith QArith List Bool Arith Lia Field_theory Field.
 From V Require Import Core.FieldEq Core.Terminal Core.TerminalP Core.DField Core.SExpr Core.Classical
   Model.DOpM Proofs.DOpP.
@@ -44,21 +35,13 @@ Section Norm.
     | H2 => let h := c_h2 lg d (hd 0 cs) in if semi then h else h + (c_h1 lg d cs + c_l2 cs)
     end.
 
-  (* what the H2 assembly yields instead: the first Hessian row *)
-  Definition assembled_h2 (semi : bool) (lg : bool) (d : nat) (c : F S) : F S :=
-    let h := c_hrow lg d c 0%nat in if semi then h else h + (c_h1 lg d [c] + c_l2 [c]).
-  Definition h2_deficit (lg : bool) (d : nat) (c : F S) : F S :=
-    Fsum (map (c_hrow lg d c) (tl (seq0 d))).
-
   (* ------------------------------------------------------------------------ hypotheses *)
   Definition wf_input (d : nat) (inp : ninput) : Prop :=
     match inp with NS _ => True | NV rows => length rows = d end.
 
   (* the denominators / bases met by the derivative formulas do not vanish: for the components and
      for the first derivatives of the components and of their terms (needed by the second derivatives of H2) *)
-  (* the components and (1-D expansion) the non-numeric factor of each of their terms *)
-  Definition input_pieces (inp : ninput) : list sx :=
-    input_comps inp ++ map snd (flat_map lin_terms (input_comps inp)).
+  Definition input_pieces (inp : ninput) : list sx := input_comps inp.
 
   Definition inp_sdf (lg : bool) (inp : ninput) : Prop :=
     Forall (sdf S) (input_comps inp) /\
@@ -88,258 +71,24 @@ Section Norm.
   Lemma sev_sq e : sev (sq e) = sev e * sev e.
   Proof. unfold ev. simpl. reflexivity. Qed.
 
-  (* ------------------------------------------------ 1-D: the linear expansion of the calculus level *)
-  Lemma nm1_nz : num S 1 <> 0.
-  Proof. change (1 <> 0). apply (F_1_neq_0 (Fth S)). Qed.
-
-  Lemma sdf_sZ z : sdf S (sZ z).
-  Proof. simpl. exact nm1_nz. Qed.
-
-  Lemma sdf_smul l : Forall (sdf S) l -> sdf S (smul l).
-  Proof.
-    intros H. unfold smul. destruct (existsb is_zero l); [apply sdf_sZ|].
-    assert (G : Forall (sdf S) (filter (fun x => negb (is_one x)) l)).
-    { rewrite Forall_forall in *. intros x Hx. apply filter_In in Hx. apply H. tauto. }
-    destruct (filter (fun x => negb (is_one x)) l) as [|x [|y r]].
-    - apply sdf_sZ.
-    - now inversion G.
-    - apply (proj2 (sdf_list S (x :: y :: r))). exact G.
-  Qed.
-
-  Lemma is_number_smul l : forallb is_number l = true -> is_number (smul l) = true.
-  Proof.
-    intros H. unfold smul. destruct (existsb is_zero l); [reflexivity|].
-    assert (G : forallb is_number (filter (fun x => negb (is_one x)) l) = true).
-    { rewrite forallb_forall in *. intros x Hx. apply filter_In in Hx. apply H. tauto. }
-    destruct (filter (fun x => negb (is_one x)) l) as [|x [|y r]].
-    - reflexivity.
-    - simpl in G. now rewrite andb_true_r in G.
-    - exact G.
-  Qed.
-
-  Lemma fprod_filter (p : sx -> bool) l :
-    fprod S (map (fun x => sev x) (filter p l)) * fprod S (map (fun x => sev x) (filter (fun x => negb (p x)) l))
-    = fprod S (map (fun x => sev x) l).
-  Proof. induction l as [|x r IH]; simpl; [ring|]. destruct (p x); simpl; rewrite <- IH; ring. Qed.
-
-  Lemma split_other t : (forall l, t <> SMul l) ->
-    split_term t = if is_number t then (t, sZ 1) else (sZ 1, t).
-  Proof. destruct t; intros H; try reflexivity. exfalso. now apply (H l). Qed.
-
-  Lemma split_term_sev t : sev (fst (split_term t)) * sev (snd (split_term t)) = sev t.
-  Proof.
-    destruct t as [p q|a|l|l|b x|f a].
-    4: { cbn [split_term fst snd]. rewrite !sev_smul, sev_mul. apply fprod_filter. }
-    all: rewrite split_other by (intros; discriminate); destruct (is_number _); cbn [fst snd];
-      rewrite sev_sZ; change (num S 1) with 1; ring.
-  Qed.
-
-  Lemma split_term_number t : is_number (fst (split_term t)) = true.
-  Proof.
-    destruct t as [p q|a|l|l|b x|f a].
-    4: { cbn [split_term fst]. apply is_number_smul. apply forallb_forall. intros x Hx. apply filter_In in Hx. tauto. }
-    all: rewrite split_other by (intros; discriminate);
-      match goal with |- context [if ?c then _ else _] => destruct c eqn:E end; cbn [fst]; auto.
-  Qed.
-
-  Lemma split_term_sdf t : sdf S t -> sdf S (fst (split_term t)) /\ sdf S (snd (split_term t)).
-  Proof.
-    intros H. destruct t as [p q|a|l|l|b x|f a].
-    4: { simpl in H. apply sdf_list in H. cbn [split_term fst snd]. split; apply sdf_smul;
-         rewrite Forall_forall in *; intros x Hx; apply filter_In in Hx; apply H; tauto. }
-    all: rewrite split_other by (intros; discriminate);
-      match goal with |- context [if ?c then _ else _] => destruct c end; cbn [fst snd]; split; auto; apply sdf_sZ.
-  Qed.
-
-  Lemma sev_lin_terms e : sev e = Fsum (map (fun cr => sev (fst cr) * sev (snd cr)) (lin_terms e)).
-  Proof.
-    destruct e as [p q|a|l|l|b x|f a]; try (unfold lin_terms; cbn [map fsum]; rewrite split_term_sev; ring).
-    unfold lin_terms. rewrite sev_add, map_map. f_equal. apply map_ext. intros t. now rewrite split_term_sev.
-  Qed.
-
-  Lemma lin_terms_sdf e : sdf S e -> Forall (fun cr => sdf S (fst cr) /\ sdf S (snd cr)) (lin_terms e).
-  Proof.
-    intros H. destruct e as [p q|a|l|l|b x|f a]; try (constructor; [now apply split_term_sdf|constructor]).
-    simpl in H. apply sdf_list in H. unfold lin_terms. rewrite Forall_forall in *. intros cr Hc.
-    apply in_map_iff in Hc. destruct Hc as [t [<- Ht]]. apply split_term_sdf. auto.
-  Qed.
-
-  Lemma lin_terms_number e : Forall (fun cr => is_number (fst cr) = true) (lin_terms e).
-  Proof.
-    destruct e as [p q|a|l|l|b x|f a]; try (constructor; [apply split_term_number|constructor]).
-    unfold lin_terms. rewrite Forall_forall. intros cr Hc. apply in_map_iff in Hc. destruct Hc as [t [<- Ht]].
-    apply split_term_number.
-  Qed.
-
-  (* an operator that is additive, commutes with numeric coefficients and vanishes on numbers *)
-  Section LinOp.
-    Variable Dop : F S -> F S.
-    Hypothesis Dop_add : forall a b, Dop (a + b) = Dop a + Dop b.
-    Hypothesis Dop_coeff : forall c x, is_number c = true -> sdf S c -> Dop (sev c * x) = sev c * Dop x.
-    Hypothesis Dop_number : forall r, is_number r = true -> sdf S r -> Dop (sev r) = 0.
-
-    Lemma lin_d1_sound op e g :
-      lin_d1 op e = Ok g -> sdf S e ->
-      (forall r a, op r = Ok a -> sdf S r -> sev a = Dop (sev r)) ->
-      sev g = Dop (sev e).
-    Proof.
-      intros H Hs Hop. unfold lin_d1 in H.
-      destruct (mapR _ (lin_terms e)) as [l|c] eqn:El; [|discriminate H]. simpl in H. inversion H; subst; clear H.
-      rewrite sev_add, sev_lin_terms.
-      pose proof (lin_terms_sdf e Hs) as Hd. pose proof (lin_terms_number e) as Hn.
-      revert l El. induction (lin_terms e) as [|[c r] ts IH]; intros l El; simpl in El.
-      - inversion El. simpl. symmetry. apply (Dop_number (sZ 0)); [reflexivity|apply sdf_sZ].
-      - inversion Hd as [|? ? [Hc Hr] Hd']; subst. inversion Hn as [|? ? Nc Hn']; subst. simpl in Hc, Hr, Nc.
-        simpl fst in El. simpl snd in El.
-        destruct (is_number r) eqn:Er.
-        + simpl in El. destruct (mapR _ ts) as [l'|c'] eqn:El'; [|discriminate El]. simpl in El. inversion El; subst.
-          simpl. rewrite Dop_add, (IH Hd' Hn' l' eq_refl), Dop_coeff, Dop_number by auto.
-          unfold ev. simpl. ring.
-        + destruct (op r) as [a|c'] eqn:Eo; [|discriminate El]. simpl in El.
-          destruct (is_dobj a); [|discriminate El]. simpl in El.
-          destruct (mapR _ ts) as [l'|c'] eqn:El'; [|discriminate El]. simpl in El. inversion El; subst.
-          simpl. rewrite Dop_add, (IH Hd' Hn' l' eq_refl), Dop_coeff by auto.
-          rewrite <- (Hop r a Eo Hr). unfold ev. simpl. ring.
-    Qed.
-
-    (* a value is returned only if every non-constant term is (coefficient) x (something whose derivative
-       is a bare derivative object) *)
-    Lemma lin_d1_only_if op e g :
-      lin_d1 op e = Ok g ->
-      Forall (fun cr => is_number (snd cr) = true \/ exists a, op (snd cr) = Ok a /\ is_dobj a = true) (lin_terms e).
-    Proof.
-      unfold lin_d1. destruct (mapR _ (lin_terms e)) as [l|c] eqn:El; [|discriminate]. intros _.
-      revert l El. induction (lin_terms e) as [|[c r] ts IH]; intros l El; simpl in El; constructor.
-      - simpl. destruct (is_number r); [now left|]. right.
-        destruct (op r) as [a|c'] eqn:Eo; [|discriminate El]. simpl in El.
-        destruct (is_dobj a) eqn:Ed; [|discriminate El]. eauto.
-      - simpl fst in El. simpl snd in El.
-        destruct (is_number r).
-        + simpl in El. destruct (mapR _ ts) as [l'|c'] eqn:El'; [|discriminate El]. eapply IH. reflexivity.
-        + destruct (op r) as [a|c'] eqn:Eo; [|discriminate El]. simpl in El.
-          destruct (is_dobj a); [|discriminate El]. simpl in El.
-          destruct (mapR _ ts) as [l'|c'] eqn:El'; [|discriminate El]. eapply IH. reflexivity.
-    Qed.
-  End LinOp.
-
-  Lemma D_coeff lg i c x : is_number c = true -> sdf S c -> Dd lg i (sev c * x) = sev c * Dd lg i x.
-  Proof. intros Hn Hs. rewrite D_mul, (is_number_D S lg i c Hn Hs). ring. Qed.
-
-  Lemma DD_coeff lg i c x : is_number c = true -> sdf S c -> Dd lg i (Dd lg i (sev c * x)) = sev c * Dd lg i (Dd lg i x).
-  Proof. intros Hn Hs. now rewrite !D_coeff. Qed.
-
-  Lemma DD_number lg i r : is_number r = true -> sdf S r -> Dd lg i (Dd lg i (sev r)) = 0.
-  Proof. intros Hn Hs. rewrite (is_number_D S lg i r Hn Hs). apply Dz. Qed.
-
-  Lemma DD_add lg i a b : Dd lg i (Dd lg i (a + b)) = Dd lg i (Dd lg i a) + Dd lg i (Dd lg i b).
-  Proof. now rewrite !D_add. Qed.
-
-  Lemma dsc_sound lg i r b : dsc lg i r = Ok b -> sdf S r -> sev b = Dd lg i (sev r).
-  Proof.
-    unfold dsc, of_opt. destruct (dop lg i r) eqn:Ed; [|discriminate]. intros H Hr. inversion H; subst.
-    now apply dop_sound.
-  Qed.
-
-  Lemma in_pieces_term e cr inp : In e (input_comps inp) -> In cr (lin_terms e) -> In (snd cr) (input_pieces inp).
-  Proof.
-    intros He Hc. unfold input_pieces. apply in_or_app. right. apply in_map. apply in_flat_map. eauto.
-  Qed.
-
-  Lemma lin_terms_sdf_in e cr : sdf S e -> In cr (lin_terms e) -> sdf S (snd cr).
-  Proof. intros Hs Hc. pose proof (lin_terms_sdf e Hs) as H. rewrite Forall_forall in H. now apply H. Qed.
-
-  Lemma dgrad_1d lg e g :
-    dgrad lg 1 e = Ok g -> inp_sdf lg (NS e) -> sev g = sqF (Dd lg 0 (sev e)).
-  Proof.
-    intros H [Hs Hd1]. unfold dgrad in H.
-    destruct (lin_d1 (dsc lg 0) e) as [a|c] eqn:El; [|discriminate H]. simpl in H. inversion H; subst; clear H.
-    inversion Hs as [|? ? He _]; subst.
-    assert (Ea : sev a = Dd lg 0 (sev e)).
-    { apply (lin_d1_sound (Dd lg 0) (D_add S lg 0) (D_coeff lg 0) (is_number_D S lg 0) (dsc lg 0) e a El He).
-      intros r b Hb Hr. now apply dsc_sound. }
-    unfold sqF. rewrite <- Ea. unfold prod2, ev. simpl. reflexivity.
-  Qed.
-
-  (* the second derivative of a term: its first derivative must be defined too *)
-  Lemma lin_d1_sound_in Dop
-        (Dop_add : forall a b, Dop (a + b) = Dop a + Dop b)
-        (Dop_coeff : forall c x, is_number c = true -> sdf S c -> Dop (sev c * x) = sev c * Dop x)
-        (Dop_number : forall r, is_number r = true -> sdf S r -> Dop (sev r) = 0) op e g :
-    lin_d1 op e = Ok g -> sdf S e ->
-    (forall cr a, In cr (lin_terms e) -> op (snd cr) = Ok a -> sdf S (snd cr) -> sev a = Dop (sev (snd cr))) ->
-    sev g = Dop (sev e).
-  Proof.
-    intros H Hs Hop. unfold lin_d1 in H.
-    destruct (mapR _ (lin_terms e)) as [l|c] eqn:El; [|discriminate H]. simpl in H. inversion H; subst; clear H.
-    rewrite sev_add, sev_lin_terms.
-    pose proof (lin_terms_sdf e Hs) as Hd. pose proof (lin_terms_number e) as Hn.
-    revert l El Hop. induction (lin_terms e) as [|[c r] ts IH]; intros l El Hop; simpl in El.
-    - inversion El. simpl. symmetry. apply (Dop_number (sZ 0)); [reflexivity|apply sdf_sZ].
-    - inversion Hd as [|? ? [Hc Hr] Hd']; subst. inversion Hn as [|? ? Nc Hn']; subst. simpl in Hc, Hr, Nc.
-      simpl fst in El. simpl snd in El.
-      assert (Hop' : forall cr a, In cr ts -> op (snd cr) = Ok a -> sdf S (snd cr) -> sev a = Dop (sev (snd cr)))
-        by (intros; apply Hop; auto; now right).
-      destruct (is_number r) eqn:Er.
-      + simpl in El. destruct (mapR _ ts) as [l'|c'] eqn:El'; [|discriminate El]. simpl in El. inversion El; subst.
-        simpl. rewrite Dop_add, (IH Hd' Hn' l' eq_refl Hop'), Dop_coeff, Dop_number by auto.
-        unfold ev. simpl. ring.
-      + destruct (op r) as [a|c'] eqn:Eo; [|discriminate El]. simpl in El.
-        destruct (is_dobj a); [|discriminate El]. simpl in El.
-        destruct (mapR _ ts) as [l'|c'] eqn:El'; [|discriminate El]. simpl in El. inversion El; subst.
-        simpl. rewrite Dop_add, (IH Hd' Hn' l' eq_refl Hop'), Dop_coeff by auto.
-        pose proof (Hop (c, r) a (or_introl eq_refl) Eo Hr) as Hq. simpl snd in Hq. rewrite <- Hq. unfold ev. simpl. ring.
-  Qed.
-
-  Lemma dhess_1d lg e g :
-    dhess lg 1 e = Ok g -> inp_sdf lg (NS e) -> sev g = sqF (Dd lg 0 (Dd lg 0 (sev e))).
-  Proof.
-    intros H [Hs Hd1]. unfold dhess in H.
-    destruct (lin_d1 (d2 lg 0 0) e) as [a|c] eqn:El; [|discriminate H]. simpl in H. inversion H; subst; clear H.
-    inversion Hs as [|? ? He _]; subst.
-    assert (Ea : sev a = Dd lg 0 (Dd lg 0 (sev e))).
-    { apply (lin_d1_sound_in (fun x => Dd lg 0 (Dd lg 0 x)) (DD_add lg 0) (DD_coeff lg 0) (DD_number lg 0)
-               (d2 lg 0 0) e a El He).
-      intros cr b Hin Hb Hr. unfold d2, bind in Hb.
-      destruct (dsc lg 0 (snd cr)) as [a0|c0] eqn:E0; [|discriminate Hb].
-      rewrite (dsc_sound lg 0 a0 b Hb).
-      - now rewrite (dsc_sound lg 0 (snd cr) a0 E0 Hr).
-      - unfold dsc, of_opt in E0. destruct (dop lg 0 (snd cr)) eqn:Ed; [|discriminate E0]. inversion E0; subst.
-        eapply Hd1; [|exact Ed]. eapply in_pieces_term; [|exact Hin]. simpl. now left. }
-    unfold sqF. rewrite <- Ea. unfold prod2, ev. simpl. reflexivity.
-  Qed.
-
   (* ------------------------------------------------------------------- scalar arguments *)
-  Lemma norm_scalar_partial semi k lg d e r :
+  Lemma norm_scalar_full semi k lg d e r :
     (1 <= d <= 3)%nat -> norm_integrand semi k lg d (NS e) = Ok r -> inp_sdf lg (NS e) ->
-    (k <> H2 \/ d = 1%nat) ->
     sev r = classical semi k lg d [sev e].
   Proof.
-    intros Hd H Hsd Hk.
-    destruct d as [|[|[|[|d]]]]; try lia; destruct k; try (destruct Hk as [Hk|Hk]; [congruence|discriminate Hk]).
-    (* d = 2, 3 *)
-    4-7: solve [destruct Hsd as [Hs Hd1];
-      unfold norm_integrand, dgrad, dhess, grad_kd, hessian_kd, dot_kd, d2, dval, dsc, glines, vidx, of_opt, bind in H;
-      brk H; destruct semi; inversion H; subst; clear H; use_sound Hs Hd1;
-      unfold classical, c_l2, c_h1, c_h2, c_hrow, sqF, sq, prod2; simpl;
-      unfold ev in *; simpl; rewrite ?R, ?R0, ?R1, ?R2, ?R3; simpl; try ring].
-    (* d = 1 : through the linear expansion *)
-    1-3: unfold norm_integrand in H.
-    - inversion H; subst. unfold classical, c_l2, sqF, sq, prod2; simpl; unfold ev; simpl; ring.
-    - destruct (dgrad lg 1 e) as [g|c] eqn:Eg; [|discriminate H]. cbn [bind] in H.
-      pose proof (dgrad_1d lg e g Eg Hsd) as Rg.
-      destruct semi; inversion H; subst; clear H; unfold classical, c_l2, c_h1, sqF, sq, prod2 in *; simpl;
-        unfold ev in *; simpl; rewrite Rg; simpl; ring.
-    - destruct semi.
-      + pose proof (dhess_1d lg e r H Hsd) as Rh. unfold classical, c_h2, c_hrow, sqF in *. simpl. rewrite Rh. ring.
-      + destruct (dhess lg 1 e) as [h|c] eqn:Eh; [|discriminate H]. cbn [bind] in H.
-        destruct (dgrad lg 1 e) as [g|c] eqn:Eg; [|discriminate H]. cbn [bind] in H.
-        pose proof (dgrad_1d lg e g Eg Hsd) as Rg. pose proof (dhess_1d lg e h Eh Hsd) as Rh.
-        inversion H; subst; clear H. unfold classical, c_l2, c_h1, c_h2, c_hrow, sqF, sq, prod2 in *; simpl;
-          unfold ev in *; simpl; rewrite Rg, Rh; simpl; ring.
+    intros Hd H [Hs Hd1].
+    destruct d as [|[|[|[|d]]]]; try lia; destruct k;
+      unfold norm_integrand, dgrad, dhess, grad_kd, hessian_kd, dot_kd, inner_kd, first_comp, to_matrix, d2, dval, dsc,
+             glines, vidx, of_opt, bind in H;
+      brk H; destruct semi; simpl in H; inversion H; subst; clear H; use_sound Hs Hd1;
+      unfold classical, c_l2, c_h1, c_h2, c_hrow, sqF, sq, prod2, trace_tAB, entry; simpl;
+      unfold ev in *; simpl; rewrite ?R, ?R0, ?R1, ?R2, ?R3, ?R4, ?R5, ?R6, ?R7, ?R8, ?R9, ?R10; simpl;
+      rewrite ?R, ?R0, ?R1, ?R2, ?R3, ?R4, ?R5, ?R6, ?R7, ?R8;
+      rewrite ?(D_comm S lg 1 0), ?(D_comm S lg 2 0), ?(D_comm S lg 2 1); try ring.
   Qed.
 
   (* ------------------------------------------------------------------- vector arguments *)
-  Lemma norm_vector_partial semi k lg d rows r :
+  Lemma norm_vector_full semi k lg d rows r :
     (1 <= d <= 3)%nat -> length rows = d -> norm_integrand semi k lg d (NV rows) = Ok r ->
     inp_sdf lg (NV rows) ->
     sev r = classical semi k lg d (map (fun e => sev e) (concat rows)).
@@ -353,20 +102,19 @@ Section Norm.
         | context [match ?r with [] => _ | _ :: _ => _ end] =>
             destruct r as [|? [|? ?]]; simpl in H; try discriminate H
         end;
-      unfold grad_kd, dot_kd, inner_kd, dval, dsc, glines, vidx, to_matrix, of_opt, bind in H;
+      unfold grad_kd, dot_kd, inner_kd, first_comp, dval, dsc, glines, vidx, to_matrix, of_opt, bind in H;
       brk H; destruct semi; simpl in H; inversion H; subst; clear H; simpl in Hs, Hd1; use_sound Hs Hd1;
       unfold classical, c_l2, c_h1, sqF, trace_tAB, entry, prod2; simpl;
       unfold ev in *; simpl; rewrite ?R, ?R0, ?R1, ?R2, ?R3, ?R4, ?R5, ?R6, ?R7, ?R8; simpl; try ring.
   Qed.
 
-  Theorem norm_partial semi k lg d inp r :
+  Theorem norm_full semi k lg d inp r :
     (1 <= d <= 3)%nat -> wf_input d inp -> norm_integrand semi k lg d inp = Ok r -> inp_sdf lg inp ->
-    (k <> H2 \/ d = 1%nat) ->
     sev r = classical semi k lg d (map (fun e => sev e) (input_comps inp)).
   Proof.
-    destruct inp as [e|rows]; intros Hd Hw H Hs Hk.
-    - now apply norm_scalar_partial.
-    - now apply norm_vector_partial.
+    destruct inp as [e|rows]; intros Hd Hw H Hs.
+    - now apply norm_scalar_full.
+    - now apply norm_vector_full.
   Qed.
 
   (* the semi-norm is the highest-order term alone: norm = semi-norm + the lower-order norm *)
@@ -374,47 +122,6 @@ Section Norm.
     classical false k lg d cs =
     classical true k lg d cs + match k with L2 => 0 | H1 => classical false L2 lg d cs | H2 => classical false H1 lg d cs end.
   Proof. destruct k; simpl; ring. Qed.
-
-  (* --------------------------------------------------------- H2 in 2-D / 3-D: first row only *)
-  Theorem norm_h2_first_row semi lg d e r :
-    (2 <= d <= 3)%nat -> norm_integrand semi H2 lg d (NS e) = Ok r -> inp_sdf lg (NS e) ->
-    sev r = assembled_h2 semi lg d (sev e).
-  Proof.
-    intros Hd H [Hs Hd1].
-    destruct d as [|[|[|[|d]]]]; try lia;
-      unfold norm_integrand, dgrad, dhess, grad_kd, hessian_kd, dot_kd, d2, dval, dsc, glines, vidx, of_opt, bind in H;
-      brk H; destruct semi; inversion H; subst; clear H; use_sound Hs Hd1;
-      unfold assembled_h2, c_l2, c_h1, c_hrow, sqF, sq, prod2; simpl;
-      unfold ev in *; simpl; rewrite ?R, ?R0, ?R1, ?R2, ?R3, ?R4, ?R5, ?R6, ?R7, ?R8, ?R9, ?R10; simpl; try ring.
-  Qed.
-
-  Lemma h2_deficit_eq semi lg d c :
-    (1 <= d <= 3)%nat -> classical semi H2 lg d [c] = assembled_h2 semi lg d c + h2_deficit lg d c.
-  Proof.
-    intros Hd. destruct d as [|[|[|[|d]]]]; try lia; destruct semi;
-      unfold classical, assembled_h2, h2_deficit, c_h2, c_h1, c_l2, c_hrow; simpl; ring.
-  Qed.
-
-  Theorem norm_h2_deficit semi lg d e r :
-    (2 <= d <= 3)%nat -> norm_integrand semi H2 lg d (NS e) = Ok r -> inp_sdf lg (NS e) ->
-    classical semi H2 lg d [sev e] = sev r + h2_deficit lg d (sev e).
-  Proof.
-    intros Hd H Hs. rewrite (norm_h2_first_row semi lg d e r Hd H Hs). apply h2_deficit_eq. lia.
-  Qed.
-
-  Theorem norm_h2_wrong semi lg d e r :
-    (2 <= d <= 3)%nat -> norm_integrand semi H2 lg d (NS e) = Ok r -> inp_sdf lg (NS e) ->
-    h2_deficit lg d (sev e) <> 0 -> sev r <> classical semi H2 lg d [sev e].
-  Proof.
-    intros Hd H Hs Hn Heq. apply Hn.
-    pose proof (norm_h2_deficit semi lg d e r Hd H Hs) as Hdef. rewrite <- Heq in Hdef.
-    transitivity ((sev r + h2_deficit lg d (sev e)) - sev r); [ring|]. rewrite <- Hdef. ring.
-  Qed.
-
-  (* the deficit, spelled out: the squares of Hessian rows 1.. (2-D: u_yx^2 + u_yy^2) *)
-  Lemma h2_deficit_2d lg c :
-    h2_deficit lg 2 c = sqF (Dd lg 1 (Dd lg 0 c)) + sqF (Dd lg 1 (Dd lg 1 c)).
-  Proof. unfold h2_deficit, c_hrow. simpl. ring. Qed.
 
   (* ------------------------------------------------------- the reference of the case files *)
   Lemma ev_ctsum_sq l : ev S (Classical.tsum (map tsq l)) = Fsum (map (fun t => sqF (ev S t)) l).
@@ -463,15 +170,14 @@ Proof.
   destruct (mapR _ rows) as [vs|c] eqn:Er; try discriminate Ec. simpl. f_equal. eapply IH. reflexivity.
 Qed.
 
-(* model and reference agree semantically wherever both are defined (same guards as norm_partial) *)
+(* model and reference agree semantically wherever both are defined *)
 Theorem norm_matches_reference (S : dfield) semi k lg d inp r t :
   (1 <= d <= 3)%nat -> wf_input d inp -> norm_integrand semi k lg d inp = Ok r -> inp_sdf S lg inp ->
-  (k <> H2 \/ d = 1%nat) ->
   sobolev_ref semi k lg d (input_scalar inp) (map sx2t (input_comps inp)) = Some t ->
   ev S (sx2t r) = ev S t.
 Proof.
-  intros Hd Hw H Hs Hk Ht.
-  rewrite (norm_partial S semi k lg d inp r Hd Hw H Hs Hk).
+  intros Hd Hw H Hs Ht.
+  rewrite (norm_full S semi k lg d inp r Hd Hw H Hs).
   rewrite (sobolev_ref_sound S semi k lg d (input_scalar inp) (map sx2t (input_comps inp)) t Hd); auto.
   - now rewrite map_map.
   - destruct inp as [e|rows]; simpl in *; [reflexivity|].
@@ -482,67 +188,31 @@ Proof.
     destruct Hx as [e [<- He]]. apply sdf_dfd. auto.
 Qed.
 
-(* ------------------------------------------------------------------- refutation of H2 *)
-(* free-jet evaluation: the derivative atoms are independent numbers (DESIGN 4.2) *)
-Fixpoint jeval (nu : atom -> Q) (t : texpr) : Q :=
-  match t with
-  | TZ z => inject_Z z
-  | TQ p q => Qmake p q
-  | TAt a => nu a
-  | TAdd a b => (jeval nu a + jeval nu b)%Q
-  | TSub a b => (jeval nu a - jeval nu b)%Q
-  | TMul a b => (jeval nu a * jeval nu b)%Q
-  | TDiv a b => (jeval nu a / jeval nu b)%Q
-  | TOpp a => (- jeval nu a)%Q
-  | TInv a => (/ jeval nu a)%Q
-  | TPowN a n => Qpower (jeval nu a) (Z.of_N n)
-  | TFn _ _ | TPowG _ _ => 0%Q
-  end.
+(* ------------------------------------------------------------------- history (before the repairs) *)
+(* before 8b3531a the Hessian term was Dot(Hessian e, Hessian e).  Dot of two matrices is, still today, the flat
+   formula u[0]*v[0] + u[1]*v[1] (+ u[2]*v[2]): only the first Hessian row was integrated (2-D: u_xx^2 + u_xy^2) *)
+Definition dhess_before_8b3531a (lg : bool) (d : nat) (e : sx) : res sx :=
+  do a <- hessian_kd lg d (VS e); dot_kd d a a.
 
-(* e = u on a 2-D domain, jet with u_yy = 1 and every other derivative 0: the assembled H2 integrand
-   is 0, the classical one is 1 *)
-Definition h2_witness_jet (a : atom) : Q :=
-  match a with AFld _ _ _ _ [0%nat; 2%nat] => 1%Q | _ => 0%Q end.
+Example h2_before_8b3531a_first_row_only :
+  let u := SAt (AFld true "u" 0 SNone []) in
+  let uxx := SAt (AFld true "u" 0 SNone [2%nat]) in
+  let uxy := SAt (AFld true "u" 0 SNone [1%nat; 1%nat]) in
+  let uxz := SAt (AFld true "u" 0 SNone [1%nat; 0%nat; 1%nat]) in
+  dhess_before_8b3531a true 2 u = Ok (SAdd [prod2 uxx uxx; prod2 uxy uxy]) /\
+  dhess_before_8b3531a true 3 u = Ok (SAdd [prod2 uxx uxx; prod2 uxy uxy; prod2 uxz uxz]).
+Proof. split; vm_compute; reflexivity. Qed.
 
-Theorem h2_refuted :
-  exists semi lg d e r t nu,
-    norm_integrand semi H2 lg d (NS e) = Ok r /\
-    sobolev_ref semi H2 lg d true [sx2t e] = Some t /\
-    Qeq_bool (jeval nu (sx2t r)) (jeval nu t) = false.
-Proof.
-  exists false, true, 2%nat, (SAt (AFld true "u" 0 SNone [])).
-  eexists. eexists. exists h2_witness_jet.
-  split; [vm_compute; reflexivity|]. split; [vm_compute; reflexivity|]. vm_compute. reflexivity.
-Qed.
+(* before d70b390 Dot_1d was u[0]*v[0] on whatever Grad_1d returned: a scalar expression that is not a bare derivative
+   object is not subscriptable (TypeError), and Inner_1d did not exist (NameError) *)
+Definition dot_1d_before_d70b390 (u v : val) : res sx :=
+  do a <- vidx u 0; do b <- vidx v 0; Ok (prod2 a b).
 
-(* ----------------------------------------------------------------- error behaviour *)
-(* 1-D: Dot_1d indexes the pieces returned by Grad_1d; only bare derivative objects survive: a value is
-   returned only for  (numeric combination of terms whose derivative is a bare derivative object) + number *)
-Theorem norm_1d_h1_value_only_if semi lg e r :
-  norm_integrand semi H1 lg 1 (NS e) = Ok r ->
-  Forall (fun cr => is_number (snd cr) = true \/ exists a, dop lg 0 (snd cr) = Some a /\ is_dobj a = true) (lin_terms e).
-Proof.
-  unfold norm_integrand, dgrad. destruct (lin_d1 (dsc lg 0) e) as [g|c] eqn:El; [|discriminate]. intros _.
-  pose proof (lin_d1_only_if (dsc lg 0) e g El) as H. rewrite Forall_forall in *. intros cr Hc.
-  destruct (H cr Hc) as [Hn|[a [Ha Hb]]]; [now left|right]. exists a. split; auto.
-  unfold dsc, of_opt in Ha. destruct (dop lg 0 (snd cr)); [now inversion Ha|discriminate].
-Qed.
-
-(* the usual error expression u - f(x) with a non-constant analytic f: TypeError *)
-Example norm_1d_h1_type_error_example :
+Example h1_1d_before_d70b390_type_error :
   let u := SAt (AFld true "u" 0 SNone []) in
   let x := SAt (ACoord true 0) in
-  forall semi, norm_integrand semi H1 true 1 (NS (SAdd [u; SMul [sZ (-1); SPow x (sZ 2)]])) = Er ETypeError
-            /\ norm_integrand semi H2 true 1 (NS (SAdd [u; SMul [sZ (-1); SPow x (sZ 2)]])) = Er ETypeError
-            /\ (exists r, norm_integrand semi H1 true 1 (NS (SAdd [u; SMul [sZ (-3); SAt (AFld true "v" 0 SNone [])]; sZ 5])) = Ok r).
-Proof. intros u x [|]; (split; [vm_compute; reflexivity|split; [vm_compute; reflexivity|eexists; vm_compute; reflexivity]]). Qed.
-
-(* 1-D vectors: there is no Inner_1d *)
-Theorem norm_1d_vector_h1_name_error semi lg x a :
-  dop lg 0 x = Some a -> norm_integrand semi H1 lg 1 (NV [[x]]) = Er ENameError.
-Proof.
-  intros Ha. unfold norm_integrand, col0, grad_kd, dval, dsc, inner_kd, of_opt, bind. simpl. now rewrite Ha.
-Qed.
+  (do a <- grad_kd true 1 (VS (SAdd [u; SMul [sZ (-1); SPow x (sZ 2)]])); dot_1d_before_d70b390 a a) = Er ETypeError.
+Proof. vm_compute. reflexivity. Qed.
 
 (* vectors of H2: refused *)
 Theorem norm_h2_vector_refused semi lg d rows : norm_integrand semi H2 lg d (NV rows) = Er ENotImplemented.
